@@ -36,6 +36,7 @@ type vfStep struct {
 	D      string   `json:"d,omitempty"` // duration
 	L      []string `json:"l,omitempty"`
 	Par    int      `json:"par,omitempty"` // steps with the same non-zero value run concurrently
+	Serial bool     `json:"serial,omitempty"` // member of a concurrent group executed alone (sequential reference run)
 }
 
 func (s vfStep) String() string {
@@ -54,6 +55,7 @@ type vfPlan struct {
 	Expect string  `json:"expect,omitempty"`
 	Tree  string   `json:"tree,omitempty"`
 	Variant string `json:"variant,omitempty"`
+	NoPost  bool   `json:"no_post,omitempty"`
 }
 
 type vfSession struct {
